@@ -67,12 +67,31 @@ def molfile_ok(mol, route):
 def describe(mol, listing, route, style_seed):
     """Build the library graph for one description of the molecule."""
     if route == "graph":
-        return mol_to_graph(mol, listing["order"], [k - 1 for k in listing["keys"]], listing["bond_order"], listing["flips"])
+        g = mol_to_graph(mol, listing["order"], [k - 1 for k in listing["keys"]], listing["bond_order"], listing["flips"])
+        return post_process(g, listing)
     if route == "v3000":
         text = render_v3000(mol, listing, {"seed": style_seed})
     else:
         text = render_v2000(mol, listing, {"seed": style_seed, "chg_by": "mline"})
     return call("read_molfile", graph_from_molfile_text, text)
+
+
+def post_process(g, listing):
+    """Descriptions whose node labels differ from their iteration positions (any networkx
+    graph is a legitimate argument of the pipeline): relabelled keeping the iteration
+    order, or the output of a first canonicalization."""
+    import networkx as nx
+
+    from ..lib import canonicalize_molecule
+
+    post = listing.get("post", "none")
+    if post == "relabel":
+        nodes = list(g.nodes)
+        pi = listing["pi"] if len(listing.get("pi", [])) == len(nodes) else list(range(len(nodes)))
+        return nx.relabel_nodes(g, {v: pi[k] for k, v in enumerate(nodes)}, copy=True)
+    if post == "recanon":
+        return call("canonicalize(description)", canonicalize_molecule, g)
+    return g
 
 
 def check(case, stats):
@@ -93,8 +112,10 @@ def check(case, stats):
         if ([a[:3] for a in pm.atoms], sorted(sorted(b[:2]) for b in pm.bonds)) != (
             [a[:3] for a in mol.atoms], sorted(sorted(b[:2]) for b in mol.bonds)) or not listing_trivial:
             differs = True
+        if route == "graph":
+            stats.label("post:" + tf.get("post", "none"))
         if s != base:
-            raise Violation("string-invariance", f"route={route}: {base!r} != {s!r} (transformation #{k})",
+            raise Violation("string-invariance", f"route={route} post={tf.get('post', 'none')}: {base!r} != {s!r} (transformation #{k})",
                             base=base, other=s, route=route)
     if n <= 6 and n >= 2:
         # all n! relabelings, exhaustively (graph route)
